@@ -310,7 +310,7 @@ def as_n(nn, ntype):
     if ntype in (None, "int"):
         return nn
     if ntype == "0d":
-        return np.array(nn, dtype=np.uint8 if nn < 256 else np.uint16)
+        return np.array(nn, dtype=np.uint8 if nn < 256 else (np.uint16 if nn < 65536 else np.uint32))
     if not (np.iinfo(ntype).min <= nn <= np.iinfo(ntype).max):
         return nn
     return np.dtype(ntype).type(nn)
